@@ -149,7 +149,7 @@ def apply_removal(spec, removed):
 def run(ctx):
     fl = import_library()
     nengines = ctx.scale(40, 4000)
-    cap = ctx.scale(48, 1024)
+    cap = ctx.scale(48, 256)
     ctx.rule = (
         f"every Engine.is_ready / Engine.process pair observed. Workload: {nengines} valid generated engines (rules with and without and/or, integral and "
         f"weighted defuzzifiers, 1-2 blocks, 1-2 outputs) with every subset (up to {cap} per engine, all of them when fewer) of {{conjunction, disjunction, "
